@@ -226,4 +226,57 @@ theorem derived_agrees_attr_free (bitsOf : R → Nat) (resolve : Nat → Out (Of
   rw [h1]
   exact h2
 
+/-! ### stepping stones for attribute-carrying nodes (not yet used by the induction) -/
+
+/-- an integer below 2²⁴ survives `i32 as f32` (`Derive.f32OfNat`) and the decoding `natOfF32Bits` of `projectNode` -/
+theorem f32_roundtrip (m : Nat) (hm : m < 16777216) : natOfF32Bits (f32OfNat m) = some m := by
+  by_cases h0 : m = 0
+  · subst h0; simp [f32OfNat, natOfF32Bits]
+  have hlo : 2 ^ m.log2 ≤ m := Nat.log2_self_le h0
+  have hhi : m < 2 ^ (m.log2 + 1) := Nat.lt_log2_self
+  have he : m.log2 ≤ 23 := by
+    rcases Nat.lt_or_ge 23 m.log2 with hc | hc
+    · have : 2 ^ 24 ≤ 2 ^ m.log2 := Nat.pow_le_pow_right (by omega) (by omega)
+      omega
+    · exact hc
+  have hb : f32OfNat m = (m.log2 + 127) * 2 ^ 23 + (m * 2 ^ (23 - m.log2) - 2 ^ 23) := by
+    simp only [f32OfNat, h0, if_false, he, if_true]
+  generalize m.log2 = e at *
+  have hs : 2 ^ e * 2 ^ (23 - e) = 8388608 := by
+    rw [← Nat.pow_add]; have : e + (23 - e) = 23 := by omega
+    rw [this]
+  have hspos : 0 < 2 ^ (23 - e) := Nat.two_pow_pos _
+  have h1 : 8388608 ≤ m * 2 ^ (23 - e) := by
+    rw [← hs]; exact Nat.mul_le_mul_right _ hlo
+  have h2 : m * 2 ^ (23 - e) < 16777216 := by
+    have : 2 ^ (e + 1) * 2 ^ (23 - e) = 16777216 := by
+      rw [← Nat.pow_add]; have : e + 1 + (23 - e) = 24 := by omega
+      rw [this]
+    rw [← this]; exact Nat.mul_lt_mul_of_pos_right hhi hspos
+  rw [hb]
+  have hdiv : m * 2 ^ (23 - e) % 2 ^ (23 - e) = 0 := Nat.mul_mod_left _ _
+  have hquo : m * 2 ^ (23 - e) / 2 ^ (23 - e) = m := Nat.mul_div_cancel _ hspos
+  generalize hq : m * 2 ^ (23 - e) = q at *
+  have e23 : (2:Nat) ^ 23 = 8388608 := by decide
+  rw [e23]
+  have hbits : (e + 127) * 8388608 + (q - 8388608) ≠ 0 := by omega
+  have hlt : ¬ ((e + 127) * 8388608 + (q - 8388608) ≥ 2147483648) := by omega
+  have hE : ((e + 127) * 8388608 + (q - 8388608)) / 8388608 = e + 127 := by omega
+  have hM : ((e + 127) * 8388608 + (q - 8388608)) % 8388608 = q - 8388608 := by omega
+  simp only [natOfF32Bits, hbits, if_false, hlt, hE, hM]
+  have h127 : ¬ (e + 127 < 127) := by omega
+  have hle : e + 127 - 127 ≤ 23 := by omega
+  have hqq : 8388608 + (q - 8388608) = q := by omega
+  have hee : e + 127 - 127 = e := by omega
+  simp only [h127, if_false, if_true, hqq, hee, hdiv, hquo, he]
+
+/-- a written box `[0 0 m 7]` read as a `Rectangle` at any tower level: four `f32` bit patterns -/
+theorem rect_read (env : Derive.Env) (m : Nat) (k : Nat) :
+    (semN ⟨true⟩ Generated.generatedSchemas k).rd env (.leaf "Rectangle") (.arr [.int 0, .int 0, .int m, .int 7]) =
+      .ok (.leaf (.arr [.real 0, .real 0, .real (f32OfNat m), .real (f32OfNat 7)])) := by
+  rw [semN_leaf ⟨true⟩ Generated.generatedSchemas env "Rectangle" _ (by decide) (by decide) (by decide) k]
+  have hnn : ¬ ((m : Int) < 0) := by omega
+  simp [baseSem, baseRdPrim, resolve1, resolveP, numbers, asNumber, f32OfInt, hnn]
+  simp [f32OfNat]
+
 end PageTreeB
